@@ -79,6 +79,7 @@ type FuncContract struct {
 	ReadsClock bool
 	NoAxioms   map[string]bool
 	OnlyAxioms map[string]bool
+	Wiring     []string // static checks: Operators.AND=and  Functions["Name"]=fn
 	File       string
 	Line       int
 }
@@ -139,7 +140,7 @@ type Contracts struct {
 	Nclause int
 }
 
-var keywordRe = regexp.MustCompile(`^(spec|pred|axiom|lemma|globalinv|type|func|iface|functype|extern|props|atomic|holds|at_call|requires|ensures|ensures_panic|ghost_ensures|modifies|loop|assume|nopanic|maypanic|trusted|pure|readsclock|noaxioms|onlyaxioms|params|immutable|stable|guards|guarded_by|ghost|lockinv|extsync|mutators|setup|strings|noinline)\b`)
+var keywordRe = regexp.MustCompile(`^(spec|pred|axiom|lemma|globalinv|type|func|iface|functype|extern|props|atomic|holds|at_call|requires|ensures|ensures_panic|ghost_ensures|modifies|loop|assume|nopanic|maypanic|trusted|pure|readsclock|noaxioms|onlyaxioms|wiring|params|immutable|stable|guards|guarded_by|ghost|lockinv|extsync|mutators|setup|strings|noinline)\b`)
 
 var labelRe = regexp.MustCompile(`^([A-Za-z_][A-Za-z_0-9]*):([^:]|$)`)
 var propsRe = regexp.MustCompile(`^\{([A-Z0-9, ]+)\}\s*`)
@@ -396,6 +397,8 @@ func (cs *Contracts) LoadContractFile(path, pkg string) error {
 				curF.Pure = true
 			case "readsclock":
 				curF.ReadsClock = true
+			case "wiring":
+				curF.Wiring = append(curF.Wiring, strings.Fields(rest)...)
 			case "onlyaxioms":
 				if curF.OnlyAxioms == nil {
 					curF.OnlyAxioms = map[string]bool{}
